@@ -190,7 +190,9 @@ def M(x, ncol=None):
 @st.composite
 def flowgrid(draw):
     nr, nc = draw(st.integers(1, 6)), draw(st.integers(1, 6))
-    codes = st.sampled_from([0, 1, 2, 4, 8, 16, 32, 64, 128, 3, -1, 255])
+    codes = st.sampled_from([0, 1, 2, 4, 8, 16, 32, 64, 128, 3, -1, 255,
+                             256, 512, 2**31, 2**40, 2**62, -128, -2**63,
+                             129, 2**31 - 1])
     if draw(st.integers(0, 2)) == 0:
         # channels: every cell holds the same direction (long chains, layers
         # of one cell), a few cells redrawn
